@@ -137,7 +137,7 @@ Definition find_bucket (name mid : N) (l : list bucket) : option bucket :=
 Definition agg_agrees (scale : Z) (exact : bool) (t : mtree) (q : query) (o : iout) : bool :=
   let a := eval_tree q t in
   let '(bs, bne) := aggregate q a in
-  let info (name mid : N) := or_new (lookup (mid, name) (a_bins a)) in
+  let info (name mid : N) := or_new scale (lookup (mid, name) (a_bins a)) in
   (length (o_bins o) =? length (a_bins a))%nat &&
   forallb (fun ki => match lookup (fst ki) (a_bins a) with
                      | Some s => summ_agrees scale exact (is_field_func (q_func q)) (collect_samples q) s (snd ki)
